@@ -39,7 +39,11 @@ names = sorted(n for n in os.listdir(ROOT) if os.path.isdir(os.path.join(ROOT, n
 def translated(name):
     # changes to sources the translator reads rewrite coq/Gen/*.v while they are checked: one at a time
     txt = open(os.path.join(ROOT, name, 'patch.diff')).read()
-    return bool(re.search(r'^\+\+\+ b/biom/(err\.py|util\.py|_\w+\.pyx)', txt, re.M))
+    if re.search(r'^\+\+\+ b/biom/(err\.py|util\.py|parse\.py|cli/table_validator\.py|_\w+\.pyx)', txt, re.M):
+        return True
+    # table.py: the methods the translators read (hunk headers and context lines name them)
+    return bool(re.search(r'_cast_metadata|_index_ids|_union_id_order|_intersect_id_order|_invert_axis|_axis_to_num|def sum\b|'
+                          r'add_metadata|del_metadata|__eq__|__ne__|descriptive_equality|_data_equality|update_ids|self\._sample_metadata = ', txt))
 
 par = [n for n in names if not translated(n)]
 ser = [n for n in names if translated(n)]
